@@ -210,8 +210,12 @@ func (r *c20Ref) orphan() bool {
 func c20Sequence(L int) {
 	ctx := context.Background()
 	vcfg("fifo", 1)
-	vcfgMapOrderIn("updateToValidateMap")
-	vcfgMapOrderIn("validateDAG")
+	if L <= 3 {
+		// L = 4 keeps insertion order: 19^4 x 2 sequences times the orders of every map they fill does not finish within
+		// the thorough budget (2.4 M paths and counting after 40 min); orders are varied for L = 3, Tail, EdgeOrder, SameReason
+		vcfgMapOrderIn("updateToValidateMap")
+		vcfgMapOrderIn("validateDAG")
+	}
 	var ops []c20Op
 	desc := ""
 	for i := 0; i < L; i++ {
